@@ -87,7 +87,7 @@ type recorder struct {
 	signal sync.Once
 }
 
-func newRecorder() *recorder { return &recorder{hdr: http.Header{}, wrote: make(chan struct{})} }
+func newRecorder() *recorder            { return &recorder{hdr: http.Header{}, wrote: make(chan struct{})} }
 func (r *recorder) Header() http.Header { return r.hdr }
 func (r *recorder) WriteHeader(c int) {
 	r.mu.Lock()
@@ -130,6 +130,8 @@ type Req struct {
 
 // do sends one request through the full handler chain.
 func (n *Node) do(rq Req) (int, string) {
+	progress()
+	defer progress()
 	var hr *http.Request
 	if rq.Body != "" {
 		hr = httptest.NewRequest(rq.Method, rq.Path, bytes.NewBufferString(rq.Body))
